@@ -5,7 +5,7 @@
 //! apply_rewrites each, and the same terms × 77 sequences that apply ONE rule per round (so that a round can add just one
 //! generator to an already symmetric class, or just one redundancy); Runner::run / run_eqsat with iter limits {0, 1, 2, 3}, node limits {0, 6, 10_000}, time limits
 //! {0 s, 60 s} and hooks failing at round {never, 0, 1, 2}; Runner::run with three hooks under 6 failure plans; the same three checks under a constant-folding analysis whose
-//! modify hook unions classes (6 terms with numbers x 7 rule sets); check_limits on 4 × 4 × 2 hand-made limit triples.
+//! modify hook unions classes (6 terms with numbers x 7 rule sets); a run with a sleeping hook under a 30 ms time limit; check_limits on 4 × 4 × 2 hand-made limit triples.
 //! The fingerprint is computed without the progress measure and without the hash-cons size: nodes per class via
 //! `enodes`, the equality partition of the tracked subterms via `eq`, slots per class via `slots`, self-symmetries per
 //! class by trying every permutation of its slots (≤ 5 slots) through `eq`.
@@ -327,6 +327,23 @@ pub fn run(only: &[String]) -> Vec<String> {
                 if let StopReason::Saturated = report.stop_reason { if let Some(m) = saturated_really(&mut eg, &tracked, idx) { if n < 3 { n += 1; fails.push(format!("FAIL run_eqsat C15:run_eqsat.saturated-true constant folding analysis, term {} rules {:?}: {}", t, idx, m)); } } }
             }
         }}
+    }
+
+    if want("Runner::run") || want("Runner::run_one") {
+        // the clock: a run whose every iteration takes >= 10 ms (a sleeping hook) under a 30 ms limit must stop for the time
+        // limit long before its 40 iterations are used up - also when run() is called a second time on the same Runner
+        let mut n = 0;
+        for t in ["(add (var $1) (var $2))", "(add (add (var $1) (var $2)) (var $3))"] {
+            verif_case(format!("Runner with a sleeping hook: term {} rule grow, time limit 30 ms, iter limit 40", t));
+            let (eg, _tracked) = start::<()>(t);
+            let mut runner: Runner<RL, (), (), String> = Runner::new(()).with_egraph(eg).with_iter_limit(40).with_node_limit(1_000_000).with_time_limit(Duration::from_millis(30))
+                .with_hook(|_r| { std::thread::sleep(Duration::from_millis(10)); Ok(()) });
+            let t0 = Instant::now();
+            let report = runner.run(&mk_rules::<()>(&[11]));
+            let took = t0.elapsed();
+            if !matches!(report.stop_reason, StopReason::TimeLimit) && n < 3 { n += 1; fails.push(format!("FAIL Runner::run C15:run.time-limit-reported term {} rule grow, hook sleeps 10 ms, time limit 30 ms, iter limit 40: the run took {:?} and {} iterations and stopped as {:?}", t, took, report.iterations, report.stop_reason)); }
+            if matches!(report.stop_reason, StopReason::TimeLimit) && took < Duration::from_millis(30) && n < 3 { n += 1; fails.push(format!("FAIL Runner::run C15:run.time-limit-true term {}: stopped for the 30 ms time limit after {:?}", t, took)); }
+        }
     }
 
     if want("run_eqsat") {
